@@ -450,27 +450,44 @@ def r4_r5_locks(chk, fx):
 
 # ---------------------------------------------------------------------------------------------
 def r6_crosscheck(chk, fx):
+    """Second line of defence: Reply::try_from hands the parsed reply on only if its message-id equals the one the slot was filed
+    under.  Decided on the explored paths of try_from (from_xml an undecided outcome): Ok exactly where the two message_id fields were
+    assumed equal, a mismatch (and a parse failure) is Err — whether the comparison is `!=` with an early return, `==` in a closure, a
+    match or a helper."""
+    from vlib import absint as A
     name = "<netconf::message::rpc::Reply<O> as std::convert::TryFrom<netconf::message::rpc::PartialReply>>::try_from"
-    b = fx.body(name)
-    chk.analysed(b.name)
-    ne = [c for c in b.calls() if not c.macro and c.is_fn("PartialEq::ne", "PartialEq::eq") and "MessageId" in " ".join(c.gargs)]
-    if len(ne) != 1:
-        raise F.AnchorLost("Reply::try_from: message-id comparison not found")
-    want = not ne[0].is_fn("PartialEq::ne")
-    n = 0
-    for (bi, si, s) in b.ok_aggs():
-        n += 1
-        ok = b.guarded_by_call(bi, ne[0], want=want)
-        chk.instance("C05/R6", "Reply::try_from returns Ok only when the parsed message-id equals the expected one", b.name,
-                     loc_of(s.get("sp")), holds=ok, key="C05/R6 try_from id-check")
-    chk.floor("C05/R6 Ok sites in try_from", n, 1)
-    # both operands: this.message_id and value.message_id
-    ops = []
-    for a in ne[0].args:
-        o = b.backward_origins(F.op_base(a), through_call=lambda c: False)
-        ops.append(sorted({(x["pl"].get("p") or [""])[-1] for x in o if x["k"] == "place"}))
-    chk.instance("C05/R6", "the comparison is between the two message_id fields", b.name, ne[0].loc(),
-                 holds=all(".message_id" in x for x in ops), key="C05/R6 try_from compared-fields")
+    if name not in fx.thir:
+        raise F.AnchorLost("Reply::try_from not found")
+    chk.analysed(name)
+
+    def hook(fn, args, node, interp):
+        return ("sym", "PARSED") if fn.endswith("::from_xml") else None
+    paths = [p for p in A.Interp(fx, hook=hook, crates=("netconf",)).explore(name) if p.end != "abort"]
+
+    def ids_equal(p):
+        """True / False / None: what the path assumed about (expected id == parsed id)."""
+        for k, v in p.assume.items():
+            if not isinstance(v, bool) or k.count("message_id") < 2 or "«PARSED»" not in k or "«param:" not in k:
+                continue
+            if k.startswith("PartialEq::eq("):
+                return v
+            if k.startswith("PartialEq::ne("):
+                return not v
+        return None
+    n_ok = 0
+    for p in paths:
+        if not A.is_res(p.ret):
+            continue
+        eq = ids_equal(p)
+        if p.ret[2] == "Ok":
+            n_ok += 1
+            chk.instance("C05/R6", "Reply::try_from returns Ok only when the parsed message-id equals the expected one", name, None, holds=eq is True,
+                         key="C05/R6 try_from id-check", detail=None if eq is True else "an Ok path does not assume the two message ids equal")
+            chk.instance("C05/R6", "the comparison is between the two message_id fields", name, None, holds=eq is not None, key="C05/R6 try_from compared-fields")
+        elif eq is True:
+            chk.instance("C05/R6", "equal ids and a parsed reply are not turned into an error", name, None, holds="PARSED»→Err" in A.vstr(p.ret),
+                         key="C05/R6 try_from equal-ids-rejected")
+    chk.floor("C05/R6 Ok sites in try_from", n_ok, 1)
 
 
 # ---------------------------------------------------------------------------------------------
